@@ -98,7 +98,9 @@ TARGETS: Dict[str, Dict[str, Any]] = {
             {"py": "hashsum", "params": {"data": "stream", "alg": "str"}, "ret": "str",
              "binders": ("(HS HC : Type) (py_block_size : HS -> Z) (py_update : HS -> list ascii -> HS) "
                          "(py_hexdigest : HS -> string) (py_hash_new : HC -> HS) (py_hash_alg : string -> option HC)"),
-             "rewrites": [{"from": "if isinstance(data, bytes):\n    data = BytesIO(data)", "to": "pass",
+             "rewrites": [{"alts": [{"from": "if isinstance(data, bytes):\n    data = BytesIO(data)", "to": "pass"},
+                                    {"from": "data = BytesIO(data) if isinstance(data, bytes) else data", "to": "pass"},
+                                    {"from": "stream = BytesIO(data) if isinstance(data, bytes) else data", "to": "stream = data"}],
                            "why": "a bytes argument is wrapped into a stream; the model takes a stream in both cases"}]}],
         "constants": ["DEF_HASH_ALG"],
         "model": "coq/Util/DirHash.v (qualified, hashsum, oneshot)",
